@@ -179,6 +179,39 @@ func Generate(family string, seed int64, idx int) Scenario {
 		sc.Steps, sc.EndMs = steps, end+4*sc.P.HeartbeatMs
 	case "fig8x":
 		genFig8x(r, &sc)
+	case "snapterm":
+		// C04/C11: a server restores a snapshot, snapshots again before any command reaches its FSM,
+		// becomes leader and has to probe a follower exactly at its snapshot boundary
+		p := &sc.P
+		p.Voters, p.NonVoters, p.Spares = pick(r, 3, 3, 5), 0, 0
+		p.PreVoteOff = make([]bool, p.N())
+		p.Trailing = pick[uint64](r, 0, 0, 1, 2)
+		p.SnapThreshold, p.SnapIntervalS = 8192, 100000
+		p.ShutdownOnRemove = false
+		p.RestoreCommitted = false
+		p.ApplyDelayMs, p.PersistDelayMs, p.RestoreDelayMs = 0, 0, 0
+		p.MaxAppend = pick(r, 1, 4, 64)
+		sc.Clients = 0
+		sc.Script = "snapterm"
+	case "xfervote":
+		// C01/C06: a leadership-transfer candidate and an ordinary candidate compete for the same
+		// term, and a voter that has already voted gets the other one's request late
+		p := &sc.P
+		p.Voters, p.NonVoters, p.Spares = 5, pick(r, 0, 0, 1), 0
+		p.PreVoteOff = make([]bool, p.N())
+		if r.Intn(3) == 0 {
+			for i := range p.PreVoteOff {
+				p.PreVoteOff[i] = true
+			}
+		}
+		p.HeartbeatMs = pick(r, 50, 80)
+		p.ElectionMs = p.HeartbeatMs * pick(r, 8, 10, 12)
+		p.LeaseMs = p.HeartbeatMs
+		p.ShutdownOnRemove = false
+		p.RestoreCommitted = false
+		p.SnapThreshold = 8192
+		sc.Clients = pick(r, 0, 1)
+		sc.Script = "xfervote"
 	case "storefail":
 		genStoreFail(r, &sc)
 	case "snapcfg":
